@@ -17,13 +17,26 @@
 //!    4096-bit block boundaries so that the closure stays small while every observer still covers all 64N bits.
 //!    Once for every DISTINCT state reached (of the closure, of the sweep of 2., and after every step of a
 //!    replay) the iterator PROTOCOL is judged: every standard way of consuming `iter_bits()` - `size_hint`,
-//!    `nth`, `skip`, `step_by`, `take`, `last`, `count`, `fold`, use after exhaustion, `by_ref` interleavings
-//!    of nth and next - on a fresh iterator and on one that has already yielded j items, must observe what
-//!    the same generic code observes on the model's ascending `Vec<usize>` (see `iter_protocol`).
+//!    `nth`, `skip`, `step_by`, `take`, `fold`, `for_each`, `reduce`, the searching methods (`find`, `position`,
+//!    `all`, `any`, `find_map`), `max_by_key` / `min_by` ..., `last`, `count`, `sum`, `max`, `min`, `collect`
+//!    into sets, `partition`, `extend`, `eq` / `cmp`, use after exhaustion, `by_ref` interleavings of nth and
+//!    next - on a fresh iterator and on one that has already yielded j items, must observe what the same
+//!    generic code observes on the model's ascending `Vec<usize>` (see `iter_protocol`).  The methods that
+//!    take a closure come first in every state: a closure of the engine ends an iteration that does not end
+//!    (`Fuse`), so "fold never stops" is a verdict found without a clock.
 //! 2. a bounded sweep with the FULL position alphabet 0..64N (every index, not only the boundary ones)
 //!    to a small stated depth — labelled as bounded, not a closure.
 //! 3. the binary operators `& | ^` (on references) and `&= |= ^=` on ALL ordered pairs of the first
 //!    K states of the closure in BFS order (K = min(states, cap); the cap is reported).
+//! 4. equality: `==` and `!=` (on values and on references; `Hash` and `PartialOrd` consistency should the type
+//!    ever implement them) on ALL ordered pairs of the equality operands: a directed family of sparse sets
+//!    and their complements whose members sit at one offset of one to four words (every pair of words is
+//!    told apart by two one-member sets), plus every reached pattern of the closure (`equality_operands`).
+//!
+//! A call that does not return is a violation too: every call into the library runs inside an observed
+//! section (`stall`); a thread seen inside the same call of a section 40 times in a row, 250 ms apart, is reported
+//! (family `stuck`) with a replay that is observed the same way.  Everything runs a second time in the `dbg`
+//! profile (debug assertions, integer overflow checks; `run_dbg_child`), where a panic is a verdict as well.
 //!
 //! Capacities share code (one generic impl) and may share state on a thread or in the process (a `static`
 //! or `thread_local!` inside a generic function is ONE object for all N).  Every pass therefore runs in a
@@ -34,17 +47,25 @@
 //!
 //! Indices >= 64N are outside the property and are never passed.
 
+mod equality;
+mod stall;
+
 use rayon::prelude::*;
 use rlib_bitset::Bitset;
 use serde::{Deserialize, Serialize};
+use equality::{eq_plain, equality_part, probes_work};
+use std::cell::Cell;
 use std::collections::{BTreeSet, HashSet, VecDeque};
-use std::sync::atomic::{AtomicU64, Ordering};
-use std::sync::Mutex;
+use std::sync::atomic::{AtomicBool, AtomicU64, Ordering};
+use std::sync::{Arc, Mutex};
 use vcore::*;
 
-/// Bumped on every call into the code under test; a watchdog turns a stall (a call that never returns,
-/// e.g. an iterator looping inside `next`) into a machinery failure (exit 2) instead of a hung check.
+/// Bumped on every call into the code under test.  A call that never returns is found by the observer of
+/// `stall`; only as the last resort (a stall outside every observed section) does the watchdog turn 120 s
+/// without progress into a machinery failure (exit 2) instead of a hung check.
 static PROGRESS: AtomicU64 = AtomicU64::new(0);
+/// Set while this process only waits for the dbg-profile pass (a process with a watchdog of its own).
+static WAITING_FOR_THE_DBG_PASS: AtomicBool = AtomicBool::new(false);
 
 const INIT_WORDS: [u64; 6] = [0, 1, 1 << 63, u64::MAX, 0xAAAA_AAAA_AAAA_AAAA, 0x8000_0000_0000_0001];
 const OPS: [&str; 6] = ["and", "or", "xor", "and_assign", "or_assign", "xor_assign"];
@@ -79,6 +100,9 @@ fn not_a_capacity<T>(n: usize) -> T {
 fn is_large(n: usize) -> bool {
     n >= 64
 }
+
+/// Operands of the binary operators in the dbg-profile pass (word-wise operators do no index arithmetic).
+const DBG_PAIR_CAP: usize = 400;
 
 /// Operands of the binary operators: the first min(states, cap) reached patterns.
 fn pair_cap(n: usize) -> usize {
@@ -196,18 +220,24 @@ static POOLS: AtomicU64 = AtomicU64::new(0);
 fn touch_n<const M: usize>() {
     PROGRESS.fetch_add(1, Ordering::Relaxed);
     let top = 64 * M;
+    let part = |k: u64| stall::detail(PH_TOUCH | (M as u64) << 8 | k);
     let _ = catch(|| {
+        part(0);
         let mut b = Bitset::<M>::from_u64(0x8000_0000_0000_0001);
         b.set(top - 1);
         b.flip(top / 2);
         b.remove(0);
         let c = !b.clone();
+        part(1);
         let _ = catch(|| format!("{}", b));
         let _ = catch(|| format!("{:?}", c));
+        part(2);
         for x in [&b, &c] {
             let _ = catch(|| (x.count(), x.iter_bits().take(top + 1).count(), x.test(top - 1)));
         }
+        part(3);
         let _ = catch(|| (b == c, &b & &c, &b | &c, &b ^ &c));
+        part(4);
         let _ = catch(|| {
             let mut d = Bitset::<M>::default();
             d |= &b;
@@ -219,9 +249,19 @@ fn touch_n<const M: usize>() {
     });
 }
 
+/// As one section of `stall` (inside a history: part of the step's section).
 fn touch(m: usize) {
-    for_cap!(m, touch_n())
+    stall::section(|| Pending::Touch { m }, || for_cap!(m, touch_n()))
 }
+
+/// What `touch_n` does, by the parts it announces through `stall::detail`.
+const TOUCH_PARTS: [&str; 5] = [
+    "from_u64, set, flip, remove, clone, !",
+    "formatting with {} and {:?}",
+    "count(), iter_bits() pulled through next(), test()",
+    "==, & | ^",
+    "|= &= ^=, clone_from, clear",
+];
 
 #[derive(Clone, Copy, PartialEq)]
 enum Order {
@@ -341,6 +381,123 @@ fn model_bfs(n: usize, pos: &[usize]) -> Vec<Vec<bool>> {
 }
 
 // ---------------------------------------------------------------------------------------------
+// what a thread is doing inside the library (see `stall`), in a form that a replay can re-execute
+
+#[derive(Clone)]
+pub(crate) enum Pending {
+    /// a constructor, then the observers
+    Init { n: usize, act: Act },
+    /// the state with these members; `then`: one action on it, followed by the observers; without an action:
+    /// what is judged once per distinct state (Debug of a large capacity, the iterator protocol)
+    State { n: usize, words: Vec<u64>, then: Option<Act> },
+    /// an operand built from new() by set() and read back through test()
+    Build { n: usize, words: Vec<u64> },
+    /// row i of the binary operators: the left operand is pattern i; detail = 8 j + operator
+    Operators { n: usize, pats: Arc<Vec<Vec<u64>>>, i: usize },
+    /// row i of the equality pairs: the left operand is pattern i; detail = j
+    Equality { n: usize, pats: Arc<Vec<Vec<u64>>>, i: usize },
+    /// a bitset of capacity m is used on the thread (the warm-up of a pass or of a replay)
+    Touch { m: usize },
+}
+
+/// A call that does not return, as a finding.
+struct Stuck {
+    n: usize,
+    family: String,
+    /// the case, compact (part of the signature)
+    case: String,
+    /// "<what was called> did not return ..."
+    text: String,
+    /// the replay value; without a warm-up of its own it gets that of the running pass
+    replay: Value,
+}
+
+fn words_json(w: &[u64]) -> Vec<String> {
+    w.iter().map(|x| format!("{x:#x}")).collect()
+}
+
+impl Pending {
+    fn stuck(&self, detail: u64) -> Stuck {
+        let never = format!("did not return within {}: the call does not terminate", stall::timeout_text());
+        match self {
+            Pending::Init { n, act } => {
+                let (fam, what) = phase_text(detail);
+                let a = serde_json::to_string(act).unwrap();
+                Stuck {
+                    n: *n,
+                    family: format!("{}.{fam}", kind_of(act)),
+                    case: format!("history=[{a}]"),
+                    text: format!("after [{a}]: {what} {never}"),
+                    replay: json!({"kind": "closure", "n": n, "alphabet": "boundary", "history": [act]}),
+                }
+            }
+            Pending::State { n, words, then } => {
+                let (fam, what) = if detail & PH_PROTOCOL != 0 { protocol_text(detail) } else { phase_text(detail) };
+                let (kind, tail, step) = match then {
+                    Some(a) => {
+                        let a = serde_json::to_string(a).unwrap();
+                        (kind_of(then.as_ref().unwrap()), format!(":then={a}"), format!(", then {a}"))
+                    }
+                    None => ("state", String::new(), String::new()),
+                };
+                Stuck {
+                    n: *n,
+                    family: format!("{kind}.{fam}"),
+                    case: format!("state={}{tail}", hex(words)),
+                    text: format!("in the state {} (rebuilt from new() by set){step}: {what} {never}", hex(words)),
+                    replay: json!({"kind": "state", "n": n, "words": words_json(words), "then": then}),
+                }
+            }
+            Pending::Build { n, words } => Stuck {
+                n: *n,
+                family: "build".into(),
+                case: format!("a={}", hex(words)),
+                text: format!("building {} from new() by set(i) and reading it back through test() {never}", hex(words)),
+                replay: json!({"kind": "build", "n": n, "a": words_json(words)}),
+            },
+            Pending::Operators { n, pats, i } => {
+                let (j, op) = ((detail / 8) as usize % pats.len(), (detail % 8) as usize % OPS.len());
+                let (wa, wb) = (&pats[*i], &pats[j]);
+                Stuck {
+                    n: *n,
+                    family: OPS[op].to_string(),
+                    case: format!("a={}:b={}", hex(wa), hex(wb)),
+                    text: format!("{} of {} and {} {never}", OPS[op], hex(wa), hex(wb)),
+                    replay: json!({"kind": "pair", "n": n, "op": OPS[op], "a": words_json(wa), "b": words_json(wb)}),
+                }
+            }
+            Pending::Touch { m } => Stuck {
+                n: *m,
+                family: "touch".into(),
+                case: "first_use_on_a_fresh_thread".into(),
+                text: format!("{} {never}", phase_text(detail).1),
+                replay: json!({"kind": "touch", "n": m, "warmup": []}),
+            },
+            Pending::Equality { n, pats, i } => {
+                let (wa, wb) = (&pats[*i], &pats[detail as usize % pats.len()]);
+                Stuck {
+                    n: *n,
+                    family: "equality".into(),
+                    case: format!("a={}:b={}", hex(wa), hex(wb)),
+                    text: format!("comparing {} with {} {never}", hex(wa), hex(wb)),
+                    replay: json!({"kind": "eq", "n": n, "a": words_json(wa), "b": words_json(wb)}),
+                }
+            }
+        }
+    }
+}
+
+/// (family tag, wording) of an observer phase
+fn phase_text(detail: u64) -> (&'static str, String) {
+    if detail & PH_TOUCH != 0 {
+        let (m, part) = ((detail >> 8) & 0xffff, (detail & 0xff) as usize % TOUCH_PARTS.len());
+        return ("call", format!("using a Bitset<{m}> on the same thread ({})", TOUCH_PARTS[part]));
+    }
+    let (fam, what) = PHASES[(detail as usize).min(PHASES.len() - 1)];
+    (fam, what.to_string())
+}
+
+// ---------------------------------------------------------------------------------------------
 // the oracle: every observer of the real bitset against the model
 
 fn render_diff(what: &str, got: &str, exp: &str) -> String {
@@ -351,9 +508,33 @@ fn render_diff(what: &str, got: &str, exp: &str) -> String {
     format!("{what} shows '{}' at index {i}, the set says '{}'", &got[i..i + 1], &exp[i..i + 1])
 }
 
+/// Where inside a section a thread is (`stall::detail`): the transition itself, then the observers in the
+/// order of `oracle`; with `PH_PROTOCOL` set the word names a case of the iterator protocol (`protocol_code`).
+const PH_CALL: u64 = 0;
+const PH_TEST: u64 = 1;
+const PH_COUNT: u64 = 2;
+const PH_ITER: u64 = 3;
+const PH_EQ: u64 = 4;
+const PH_DISPLAY: u64 = 5;
+const PH_DEBUG: u64 = 6;
+const PH_PROTOCOL: u64 = 1 << 63;
+/// a bitset of another capacity M is being used (`touch_n`): PH_TOUCH | M << 8 | part
+const PH_TOUCH: u64 = 1 << 62;
+/// (family tag, wording) per phase
+const PHASES: [(&str, &str); 7] = [
+    ("call", "the call itself"),
+    ("test", "test(i) for every i"),
+    ("count", "count()"),
+    ("iter", "iter_bits() pulled through next()"),
+    ("eq", "== / != against a bitset rebuilt by set() and its one-bit neighbours"),
+    ("display", "formatting with {}"),
+    ("debug", "formatting with {:?}"),
+];
+
 /// Err((observer family, message)).  Ok = the Display rendering that was observed (it equals the model string).
 fn oracle<const N: usize>(b: &Bitset<N>, m: &[bool], probe: &[usize], with_debug: bool) -> Result<String, (&'static str, String)> {
     let top = 64 * N;
+    stall::detail(PH_TEST);
     for i in 0..top {
         let got = b.test(i);
         if got != m[i] {
@@ -361,10 +542,12 @@ fn oracle<const N: usize>(b: &Bitset<N>, m: &[bool], probe: &[usize], with_debug
         }
     }
     let members: Vec<usize> = (0..top).filter(|&i| m[i]).collect();
+    stall::detail(PH_COUNT);
     let c = b.count();
     if c != members.len() {
         return Err(("count", format!("count() = {c}, the set has {} members", members.len())));
     }
+    stall::detail(PH_ITER);
     let got: Vec<usize> = b.iter_bits().take(top + 1).collect();
     if got.len() > top {
         return Err(("iter", format!("iter_bits() yielded more than {top} items (does not terminate); first items {:?}", &got[..8.min(got.len())])));
@@ -382,6 +565,7 @@ fn oracle<const N: usize>(b: &Bitset<N>, m: &[bool], probe: &[usize], with_debug
             ),
         ));
     }
+    stall::detail(PH_EQ);
     let mut other = Bitset::<N>::new();
     for &i in &members {
         other.set(i);
@@ -405,6 +589,7 @@ fn oracle<const N: usize>(b: &Bitset<N>, m: &[bool], probe: &[usize], with_debug
         }
     }
     let exp = model_string(m);
+    stall::detail(PH_DISPLAY);
     let d = format!("{}", b);
     if d != exp {
         return Err(("display", render_diff("Display", &d, &exp)));
@@ -416,6 +601,7 @@ fn oracle<const N: usize>(b: &Bitset<N>, m: &[bool], probe: &[usize], with_debug
 }
 
 fn check_debug<const N: usize>(b: &Bitset<N>, exp: &str) -> Result<(), (&'static str, String)> {
+    stall::detail(PH_DEBUG);
     let dbg = format!("{:?}", b);
     if dbg != exp {
         return Err(("debug", render_diff("Debug", &dbg, exp)));
@@ -438,15 +624,49 @@ enum Use {
     StepBy(usize),
     /// every item of by_ref().take(k), then next()
     Take(usize),
-    Last,
-    Count,
     /// fold to (number of items, order-sensitive digest of the items)
     Fold,
+    /// for_each to (number of items, order-sensitive digest of the items)
+    ForEach,
+    /// reduce to the order-sensitive digest
+    Reduce,
+    /// the searching methods with predicates around position p
+    Search(usize),
+    /// max_by_key, min_by_key, max_by, min_by on the offset inside the word
+    ExtremesBy,
+    Last,
+    Count,
+    /// sum, max, min
+    Aggregates,
+    /// collect into a BTreeSet, into a HashSet, partition by parity, extend a non-empty Vec
+    Collect,
+    /// eq, ne, cmp, partial_cmp, le against the rest of the model's list
+    Compare,
     /// next() until None (counted), then next(), next(), nth(0), nth(2), by_ref().count(), last()
     Exhaust,
 }
 
-const USES: [&str; 9] = ["iter_size_hint", "iter_nth", "iter_skip", "iter_step_by", "iter_take", "iter_last", "iter_count", "iter_fold", "iter_exhausted"];
+/// Check families of the iterator protocol.  From `iter_fold` to `iter_extremes_by`: methods that take a
+/// closure, judged FIRST in every state (a closure can end an iteration that does not end, see `Fuse`);
+/// from `iter_last` on: methods without one, which std builds on the former unless they are overridden.
+const USES: [&str; 16] = [
+    "iter_size_hint",
+    "iter_nth",
+    "iter_skip",
+    "iter_step_by",
+    "iter_take",
+    "iter_fold",
+    "iter_for_each",
+    "iter_reduce",
+    "iter_search",
+    "iter_extremes_by",
+    "iter_last",
+    "iter_count",
+    "iter_aggregates",
+    "iter_collect",
+    "iter_compare",
+    "iter_exhausted",
+];
 const STEPS: [usize; 5] = [1, 2, 3, 64, 65];
 
 impl Use {
@@ -457,11 +677,39 @@ impl Use {
             Use::Skip(_) => 2,
             Use::StepBy(_) => 3,
             Use::Take(_) => 4,
-            Use::Last => 5,
-            Use::Count => 6,
-            Use::Fold => 7,
-            Use::Exhaust => 8,
+            Use::Fold => 5,
+            Use::ForEach => 6,
+            Use::Reduce => 7,
+            Use::Search(_) => 8,
+            Use::ExtremesBy => 9,
+            Use::Last => 10,
+            Use::Count => 11,
+            Use::Aggregates => 12,
+            Use::Collect => 13,
+            Use::Compare => 14,
+            Use::Exhaust => 15,
         }
+    }
+
+    fn parameter(self) -> usize {
+        match self {
+            Use::Nth(k) | Use::Skip(k) | Use::StepBy(k) | Use::Take(k) | Use::Search(k) => k,
+            _ => 0,
+        }
+    }
+
+    /// inverse of (`family`, `parameter`)
+    fn from_code(family: usize, k: usize) -> Option<Use> {
+        const PLAIN: [Use; 11] =
+            [Use::Fold, Use::ForEach, Use::Reduce, Use::Search(0), Use::ExtremesBy, Use::Last, Use::Count, Use::Aggregates, Use::Collect, Use::Compare, Use::Exhaust];
+        Some(match family {
+            1 => Use::Nth(k),
+            2 => Use::Skip(k),
+            3 => Use::StepBy(k),
+            4 => Use::Take(k),
+            8 => Use::Search(k),
+            f => *PLAIN.get(f.checked_sub(5)?)?,
+        })
     }
 
     fn text(self) -> String {
@@ -470,39 +718,164 @@ impl Use {
             Use::Skip(k) => format!("the first three items of by_ref().skip({k}), then next()"),
             Use::StepBy(s) => format!("the items of step_by({s})"),
             Use::Take(k) => format!("the items of by_ref().take({k}), then next()"),
+            Use::Fold => "fold to [number of items, digest of the items in order]".into(),
+            Use::ForEach => "for_each to [number of items, digest of the items in order]".into(),
+            Use::Reduce => "[reduce to the digest of the items in order]".into(),
+            Use::Search(p) => {
+                format!("[find(x >= {p}), next(), position(x >= {}), next(), all(x < MAX), next(); any(x > {p}), next(); find_map(word of the first x >= {p} at offset 63)]", p + 64)
+            }
+            Use::ExtremesBy => "[max_by_key(x % 64), min_by_key(x % 64), max_by(x % 64), min_by(x % 64)]".into(),
             Use::Last => "[last()]".into(),
             Use::Count => "[count()]".into(),
-            Use::Fold => "fold to [number of items, digest of the items in order]".into(),
+            Use::Aggregates => "[sum(), max(), min()]".into(),
+            Use::Collect => "collect::<BTreeSet>, None, collect::<HashSet> sorted, None, partition(even) sizes, None, extend of a Vec holding one item".into(),
+            Use::Compare => "[eq, ne, cmp, partial_cmp, le against the rest of the ascending list]".into(),
             Use::Exhaust => "[items until the first None, next(), next(), nth(0), nth(2), by_ref().count(), last()]".into(),
         }
     }
 }
 
-/// What the consumption observes, in order, written to `out` (a number is written as Some(number)).
-/// `cap` bounds what is collected from an iterator that does not end.
-fn consume<I: Iterator<Item = usize>>(mut it: I, pre: usize, u: Use, cap: usize, out: &mut Vec<Option<usize>>) {
-    out.clear();
-    for _ in 0..pre {
-        it.next();
+/// The `stall::detail` word of one protocol case (family 0: the size_hint walk).
+fn protocol_code(pre: usize, family: usize, k: usize) -> u64 {
+    PH_PROTOCOL | ((pre as u64 & 0xff_ffff) << 32) | ((k as u64 & 0xff_ffff) << 8) | family as u64
+}
+
+/// "iter_bits() after j next() calls: ..." and the family of a `protocol_code`.
+fn protocol_text(code: u64) -> (&'static str, String) {
+    let (pre, k, family) = ((code >> 32) & 0xff_ffff, ((code >> 8) & 0xff_ffff) as usize, (code & 0xff) as usize);
+    match Use::from_code(family, k) {
+        Some(u) => (USES[family], format!("iter_bits() after {pre} next() calls: {}", u.text())),
+        None => (USES[0], "the walk over iter_bits() with size_hint() before every next() and after nth(k)".into()),
     }
+}
+
+const ENDLESS: &str = "the method went on calling its closure";
+
+/// Handed to the closures that the engine passes to Iterator methods: `burn` panics (the caller catches it)
+/// once it has been called more often than an iteration over 64N indices can call it.  A method that
+/// never stops calling its closure is ended deterministically this way, without a clock.
+struct Fuse(Cell<usize>);
+
+impl Fuse {
+    fn new(calls: usize) -> Self {
+        Fuse(Cell::new(calls))
+    }
+    fn burn(&self) {
+        match self.0.get() {
+            0 => panic!("{ENDLESS}"),
+            n => self.0.set(n - 1),
+        }
+    }
+}
+
+/// What the consumption observes, in order, written to `out` (a number is written as Some(number)).
+/// `mk` makes a fresh iterator; `cap` (more than there are indices) bounds what is collected from an
+/// iterator that does not end and how often a closure lets itself be called; `list` is the model's list.
+fn consume<I: Iterator<Item = usize>>(mk: impl Fn() -> I, pre: usize, u: Use, cap: usize, list: &[usize], out: &mut Vec<Option<usize>>) {
+    out.clear();
+    let start = || {
+        let mut it = mk();
+        for _ in 0..pre {
+            it.next();
+        }
+        it
+    };
+    let digest = |h: usize, x: usize| h.wrapping_mul(1_000_003).wrapping_add(x + 1);
+    let fuse = Fuse::new(4 * cap);
     match u {
-        Use::Nth(k) => out.extend([it.nth(k), it.next(), it.nth(k), it.next()]),
+        Use::Nth(k) => {
+            let mut it = start();
+            out.extend([it.nth(k), it.next(), it.nth(k), it.next()])
+        }
         Use::Skip(k) => {
+            let mut it = start();
             out.extend(it.by_ref().skip(k).take(3).map(Some));
             out.push(it.next());
         }
-        Use::StepBy(s) => out.extend(it.step_by(s).take(cap).map(Some)),
+        Use::StepBy(s) => out.extend(start().step_by(s).take(cap).map(Some)),
         Use::Take(k) => {
+            let mut it = start();
             out.extend(it.by_ref().take(k).map(Some));
             out.push(it.next());
         }
-        Use::Last => out.push(it.last()),
-        Use::Count => out.push(Some(it.count())),
         Use::Fold => {
-            let (n, h) = it.fold((0usize, 0usize), |(n, h), x| (n + 1, h.wrapping_mul(1_000_003).wrapping_add(x + 1)));
+            let (n, h) = start().fold((0usize, 0usize), |(n, h), x| {
+                fuse.burn();
+                (n + 1, digest(h, x))
+            });
             out.extend([Some(n), Some(h)]);
         }
+        Use::ForEach => {
+            let (mut n, mut h) = (0usize, 0usize);
+            start().for_each(|x| {
+                fuse.burn();
+                n += 1;
+                h = digest(h, x);
+            });
+            out.extend([Some(n), Some(h)]);
+        }
+        Use::Reduce => out.push(start().reduce(|a, x| {
+            fuse.burn();
+            digest(a, x)
+        })),
+        Use::Search(p) => {
+            let burn = |b: bool| {
+                fuse.burn();
+                b
+            };
+            let mut it = start();
+            out.push(it.find(|&x| burn(x >= p)));
+            out.push(it.next());
+            out.push(it.position(|x| burn(x >= p + 64)));
+            out.push(it.next());
+            out.push(Some(it.all(|x| burn(x < usize::MAX)) as usize));
+            out.push(it.next());
+            let mut it = start();
+            out.push(Some(it.any(|x| burn(x > p)) as usize));
+            out.push(it.next());
+            out.push(start().find_map(|x| burn(x >= p && x % 64 == 63).then_some(x / 64)));
+        }
+        Use::ExtremesBy => {
+            let key = |x: usize| {
+                fuse.burn();
+                x % 64
+            };
+            out.push(start().max_by_key(|&x| key(x)));
+            out.push(start().min_by_key(|&x| key(x)));
+            out.push(start().max_by(|&a, &b| key(a).cmp(&(b % 64))));
+            out.push(start().min_by(|&a, &b| key(a).cmp(&(b % 64))));
+        }
+        Use::Last => out.push(start().last()),
+        Use::Count => out.push(Some(start().count())),
+        Use::Aggregates => out.extend([Some(start().sum::<usize>()), start().max(), start().min()]),
+        Use::Collect => {
+            out.extend(start().collect::<BTreeSet<usize>>().into_iter().map(Some));
+            out.push(None);
+            let mut v: Vec<usize> = start().collect::<HashSet<usize>>().into_iter().collect();
+            v.sort();
+            out.extend(v.into_iter().map(Some));
+            out.push(None);
+            let (even, odd): (Vec<usize>, Vec<usize>) = start().partition(|x| {
+                fuse.burn();
+                x % 2 == 0
+            });
+            out.extend([Some(even.len()), Some(odd.len()), None]);
+            let mut v = vec![usize::MAX];
+            v.extend(start());
+            out.extend(v.into_iter().map(Some));
+        }
+        Use::Compare => {
+            let rest = || list[pre.min(list.len())..].iter().copied();
+            out.extend([
+                Some(start().eq(rest()) as usize),
+                Some(start().ne(rest()) as usize),
+                Some(start().cmp(rest()) as usize),
+                start().partial_cmp(rest()).map(|o| o as usize),
+                Some(start().le(rest()) as usize),
+            ]);
+        }
         Use::Exhaust => {
+            let mut it = start();
             let mut n = 0;
             while n < cap && it.next().is_some() {
                 n += 1;
@@ -519,6 +892,11 @@ fn protocol_marks(n: usize) -> Vec<usize> {
     below(64 * n, boundary_positions(n).into_iter().chain((1..words).flat_map(|w| [64 * w - 1, 64 * w, 64 * w + 1])))
 }
 
+/// Positions around which the searching methods (find, position, any, find_map) look.
+fn search_positions(n: usize) -> Vec<usize> {
+    below(64 * n, [0, 63, 64, 64 * n - 1])
+}
+
 /// (small, ranks): small = {0,1,2,3,L-1,L,L+1}; ranks = small, L-2 and r-1, r, r+1 for the rank r (number of
 /// smaller members) of every mark; all <= L+1 (L+1: one more than what is left).
 fn protocol_ranks(members: &[usize], marks: &[usize]) -> (Vec<usize>, Vec<usize>) {
@@ -533,26 +911,47 @@ fn protocol_ranks(members: &[usize], marks: &[usize]) -> (Vec<usize>, Vec<usize>
 }
 
 /// per entry of `USES`: cases compared
-static PROTOCOL_CASES: [AtomicU64; 9] = [const { AtomicU64::new(0) }; 9];
+static PROTOCOL_CASES: [AtomicU64; USES.len()] = [const { AtomicU64::new(0) }; USES.len()];
 static PROTOCOL_STATES: AtomicU64 = AtomicU64::new(0);
 /// nth cases that start behind a yielded member in the middle of a word and end in a later word or behind the end
 static NTH_LEAVING_A_STARTED_WORD: AtomicU64 = AtomicU64::new(0);
+/// states judged in which some word holds only its top bit / only its bottom bit (a fresh iterator is
+/// consumed by every family in every state, so these are consumed from the start of such a word)
+static STATES_WITH_A_TOP_ONLY_WORD: AtomicU64 = AtomicU64::new(0);
+static STATES_WITH_A_BOTTOM_ONLY_WORD: AtomicU64 = AtomicU64::new(0);
 
-/// (states judged, cases per entry of `USES`, nth cases leaving a started word) so far in the process
-fn protocol_counts() -> (u64, Vec<u64>, u64) {
-    let cases = PROTOCOL_CASES.iter().map(|c| c.load(Ordering::Relaxed)).collect();
-    (PROTOCOL_STATES.load(Ordering::Relaxed), cases, NTH_LEAVING_A_STARTED_WORD.load(Ordering::Relaxed))
+/// What has been judged so far in the process.
+#[derive(Clone, Default)]
+struct ProtocolTotals {
+    states: u64,
+    cases: Vec<u64>,
+    leaving: u64,
+    top_only: u64,
+    bottom_only: u64,
+}
+
+fn protocol_counts() -> ProtocolTotals {
+    ProtocolTotals {
+        states: PROTOCOL_STATES.load(Ordering::Relaxed),
+        cases: PROTOCOL_CASES.iter().map(|c| c.load(Ordering::Relaxed)).collect(),
+        leaving: NTH_LEAVING_A_STARTED_WORD.load(Ordering::Relaxed),
+        top_only: STATES_WITH_A_TOP_ONLY_WORD.load(Ordering::Relaxed),
+        bottom_only: STATES_WITH_A_BOTTOM_ONLY_WORD.load(Ordering::Relaxed),
+    }
 }
 
 /// The evidence entry for what was judged since `before`.
-fn protocol_evidence(before: &(u64, Vec<u64>, u64)) -> Value {
+fn protocol_evidence(before: &ProtocolTotals) -> Value {
     let now = protocol_counts();
-    let per: serde_json::Map<String, Value> = USES.iter().zip(now.1.iter().zip(&before.1)).map(|(u, (a, b))| (u.to_string(), json!(a - b))).collect();
+    let was = |i: usize| before.cases.get(i).copied().unwrap_or(0);
+    let per: serde_json::Map<String, Value> = USES.iter().enumerate().map(|(i, u)| (u.to_string(), json!(now.cases[i] - was(i)))).collect();
     json!({
-        "states_judged": now.0 - before.0,
-        "cases": now.1.iter().sum::<u64>() - before.1.iter().sum::<u64>(),
+        "states_judged": now.states - before.states,
+        "cases": now.cases.iter().sum::<u64>() - before.cases.iter().sum::<u64>(),
         "cases_per_family": per,
-        "nth_from_behind_a_yielded_member_inside_a_word_to_a_later_word_or_the_end": now.2 - before.2,
+        "nth_from_behind_a_yielded_member_inside_a_word_to_a_later_word_or_the_end": now.leaving - before.leaving,
+        "states_in_which_a_word_holds_only_its_top_bit": now.top_only - before.top_only,
+        "states_in_which_a_word_holds_only_its_bottom_bit": now.bottom_only - before.bottom_only,
     })
 }
 
@@ -566,8 +965,10 @@ fn short(v: &[Option<usize>]) -> String {
 
 /// What one state's protocol compared: cases per entry of `USES`, nth cases leaving a started word.
 struct ProtocolCount {
-    cases: [u64; 9],
+    cases: [u64; USES.len()],
     leaving: u64,
+    top_only: bool,
+    bottom_only: bool,
 }
 
 impl ProtocolCount {
@@ -579,6 +980,8 @@ impl ProtocolCount {
             c.fetch_add(n, Ordering::Relaxed);
         }
         NTH_LEAVING_A_STARTED_WORD.fetch_add(self.leaving, Ordering::Relaxed);
+        STATES_WITH_A_TOP_ONLY_WORD.fetch_add(self.top_only as u64, Ordering::Relaxed);
+        STATES_WITH_A_BOTTOM_ONLY_WORD.fetch_add(self.bottom_only as u64, Ordering::Relaxed);
     }
 }
 
@@ -588,7 +991,7 @@ fn iter_protocol<const N: usize>(b: &Bitset<N>, m: &[bool], marks: &[usize]) -> 
     let members: Vec<usize> = (0..64 * N).filter(|&i| m[i]).collect();
     let l = members.len();
     let (small, ranks) = protocol_ranks(&members, marks);
-    let mut cases = [0u64; 9];
+    let mut cases = [0u64; USES.len()];
 
     // size_hint: lower <= what is left <= upper, before every next() of a full walk and after nth(k) on a fresh iterator
     /// Some(message) if size_hint() contradicts the number of items that are left
@@ -597,6 +1000,7 @@ fn iter_protocol<const N: usize>(b: &Bitset<N>, m: &[bool], marks: &[usize]) -> 
         (lo > left || hi.is_some_and(|h| h < left)).then(|| format!("size_hint() = ({lo}, {hi:?}) but {left} items are left"))
     }
     PROGRESS.fetch_add(1, Ordering::Relaxed);
+    stall::detail(protocol_code(0, 0, 0));
     let walked = catch(|| {
         let mut it = b.iter_bits();
         for j in 0..=l + 1 {
@@ -624,15 +1028,29 @@ fn iter_protocol<const N: usize>(b: &Bitset<N>, m: &[bool], marks: &[usize]) -> 
     let (mut exp, mut got) = (vec![], vec![]);
     let mut judge = |pre: usize, u: Use| -> Result<(), (&'static str, String)> {
         cases[u.family()] += 1;
-        consume(members.iter().copied(), pre, u, cap, &mut exp);
+        consume(|| members.iter().copied(), pre, u, cap, &members, &mut exp);
         let fam = USES[u.family()];
         let head = || format!("iter_bits() of the set with {l} members, after {pre} next() calls: {}", u.text());
-        match catch(|| consume(b.iter_bits(), pre, u, cap, &mut got)) {
+        stall::detail(protocol_code(pre, u.family(), u.parameter()));
+        match catch(|| consume(|| b.iter_bits(), pre, u, cap, &members, &mut got)) {
             Ok(()) if got == exp => Ok(()),
             Ok(()) => Err((fam, format!("{} gave {}, the ascending list of the set gives {}", head(), short(&got), short(&exp)))),
+            Err(p) if p == ENDLESS => Err((fam, format!("{} does not terminate: {ENDLESS} after more than {} calls (there are {} indices)", head(), 4 * cap, 64 * N))),
             Err(p) => Err((fam, format!("{} panicked: {p}", head()))),
         }
     };
+    // the methods that take a closure first: if one of them does not terminate it is ended through its
+    // closure, and the methods without a closure that std builds on it are never reached in that state
+    let searches = search_positions(N);
+    PROGRESS.fetch_add(1, Ordering::Relaxed);
+    for &j in &small {
+        for u in [Use::Fold, Use::ForEach, Use::Reduce, Use::ExtremesBy] {
+            judge(j, u)?;
+        }
+        for &p in &searches {
+            judge(j, Use::Search(p))?;
+        }
+    }
     let mut leaving = 0u64;
     for (a, &j) in ranks.iter().enumerate() {
         PROGRESS.fetch_add(1, Ordering::Relaxed);
@@ -657,11 +1075,12 @@ fn iter_protocol<const N: usize>(b: &Bitset<N>, m: &[bool], marks: &[usize]) -> 
         for &k in &small {
             judge(j, Use::Take(k))?;
         }
-        for u in [Use::Last, Use::Count, Use::Fold, Use::Exhaust] {
+        for u in [Use::Last, Use::Count, Use::Aggregates, Use::Collect, Use::Compare, Use::Exhaust] {
             judge(j, u)?;
         }
     }
-    Ok(ProtocolCount { cases, leaving })
+    let words = model_words(m);
+    Ok(ProtocolCount { cases, leaving, top_only: words.contains(&(1 << 63)), bottom_only: words.contains(&1) })
 }
 
 #[derive(Clone)]
@@ -722,14 +1141,19 @@ impl<const N: usize> System for Sys<N> {
     fn init(&self, a: &Act) -> Result<St<N>, String> {
         PROGRESS.fetch_add(1, Ordering::Relaxed);
         let m = model_init(N, a).ok_or_else(|| "not a constructor".to_string())?;
-        let b = match a {
-            Act::New => Bitset::<N>::new(),
-            Act::Default => <Bitset<N> as Default>::default(),
-            Act::FromU64(w) => Bitset::<N>::from_u64(*w),
-            _ => unreachable!(),
-        };
-        let disp = oracle(&b, &m, &self.probe, debug_every_transition(N)).map_err(|e| tag(kind_of(a), e))?;
-        Ok(St { b, m, disp })
+        stall::section(
+            || Pending::Init { n: N, act: a.clone() },
+            || {
+                let b = match a {
+                    Act::New => Bitset::<N>::new(),
+                    Act::Default => <Bitset<N> as Default>::default(),
+                    Act::FromU64(w) => Bitset::<N>::from_u64(*w),
+                    _ => unreachable!(),
+                };
+                let disp = oracle(&b, &m, &self.probe, debug_every_transition(N)).map_err(|e| tag(kind_of(a), e))?;
+                Ok(St { b, m, disp })
+            },
+        )
     }
 
     fn actions(&self, _s: &St<N>) -> Vec<Act> {
@@ -738,7 +1162,40 @@ impl<const N: usize> System for Sys<N> {
 
     fn step(&self, s: &mut St<N>, a: &Act) -> Result<u64, String> {
         PROGRESS.fetch_add(1, Ordering::Relaxed);
+        let words = model_words(&s.m);
+        stall::section(|| Pending::State { n: N, words, then: Some(a.clone()) }, || self.step_inside(s, a))
+    }
+
+    fn invariant(&self, s: &St<N>) -> Result<(), String> {
+        PROGRESS.fetch_add(1, Ordering::Relaxed);
+        let key = self.canon(s);
+        if self.passed.lock().unwrap().contains(&key) {
+            return Ok(());
+        }
+        let count = stall::section(|| Pending::State { n: N, words: model_words(&s.m), then: None }, || self.judge_state(s))?;
+        if self.passed.lock().unwrap().insert(key) {
+            count.record();
+        }
+        Ok(())
+    }
+
+    fn canon(&self, s: &St<N>) -> Vec<u8> {
+        let mut k: Vec<u8> = s.m.iter().map(|&b| b as u8).collect();
+        k.push(b'|');
+        k.extend(s.disp.bytes());
+        k
+    }
+
+    fn kind(&self, a: &Act) -> &'static str {
+        kind_of(a)
+    }
+}
+
+impl<const N: usize> Sys<N> {
+    /// One transition on the real bitset and on the model, then the observers (one section of `stall`).
+    fn step_inside(&self, s: &mut St<N>, a: &Act) -> Result<u64, String> {
         let top = 64 * N;
+        stall::detail(PH_CALL);
         match *a {
             Act::New | Act::Default | Act::FromU64(_) => {
                 eprintln!("machinery: constructor inside a history");
@@ -799,32 +1256,6 @@ impl<const N: usize> System for Sys<N> {
         Ok(fnv(s.disp.as_bytes()))
     }
 
-    fn invariant(&self, s: &St<N>) -> Result<(), String> {
-        PROGRESS.fetch_add(1, Ordering::Relaxed);
-        let key = self.canon(s);
-        if self.passed.lock().unwrap().contains(&key) {
-            return Ok(());
-        }
-        let count = self.judge_state(s)?;
-        if self.passed.lock().unwrap().insert(key) {
-            count.record();
-        }
-        Ok(())
-    }
-
-    fn canon(&self, s: &St<N>) -> Vec<u8> {
-        let mut k: Vec<u8> = s.m.iter().map(|&b| b as u8).collect();
-        k.push(b'|');
-        k.extend(s.disp.bytes());
-        k
-    }
-
-    fn kind(&self, a: &Act) -> &'static str {
-        kind_of(a)
-    }
-}
-
-impl<const N: usize> Sys<N> {
     /// What is judged once per distinct state (and after every step of a replay): Debug for the large
     /// capacities, and the iterator protocol.  Both only read the bitset, and a state is its complete contents.
     fn judge_state(&self, s: &St<N>) -> Result<ProtocolCount, String> {
@@ -841,11 +1272,14 @@ impl<const N: usize> Sys<N> {
 // ---------------------------------------------------------------------------------------------
 // binary operators on pairs of reached bit patterns
 
+/// `new()`, then `set(i)` for every member in ascending order.
 fn build<const N: usize>(w: &[u64]) -> Bitset<N> {
     let mut b = Bitset::<N>::new();
-    for i in 0..64 * N {
-        if (w[i / 64] >> (i % 64)) & 1 == 1 {
-            b.set(i);
+    for (k, &word) in w.iter().enumerate().take(N) {
+        let mut rest = word;
+        while rest != 0 {
+            b.set(64 * k + rest.trailing_zeros() as usize);
+            rest &= rest - 1;
         }
     }
     b
@@ -912,11 +1346,18 @@ fn pair_case<const N: usize>(op: usize, a: &Bitset<N>, wa: &[u64], b: &Bitset<N>
 
 /// Build the operand for a pattern and read it back: Err if set() on new() does not give the pattern.
 fn build_checked<const N: usize>(w: &[u64]) -> Result<Bitset<N>, String> {
-    match catch(|| {
-        let b = build::<N>(w);
-        let back = read_words(&b);
-        (b, back)
-    }) {
+    PROGRESS.fetch_add(1, Ordering::Relaxed);
+    let built = stall::section(
+        || Pending::Build { n: N, words: w.to_vec() },
+        || {
+            catch(|| {
+                let b = build::<N>(w);
+                let back = read_words(&b);
+                (b, back)
+            })
+        },
+    );
+    match built {
         Ok((b, back)) if back[..] == *w => Ok(b),
         Ok((_, back)) => Err(format!("a bitset built from new() by set(i) for every member of {} reads back through test() as {}", hex(w), hex(&back))),
         Err(p) => Err(format!("building {} from new() by set(i) and reading it back through test() panicked: {p}", hex(w))),
@@ -926,14 +1367,21 @@ fn build_checked<const N: usize>(w: &[u64]) -> Result<Bitset<N>, String> {
 fn pair_plain<const N: usize>(op: usize, wa: &[u64], wb: &[u64]) -> Result<(), String> {
     build_checked::<N>(wa)?;
     build_checked::<N>(wb)?;
-    let r = catch(|| {
-        let (a, b) = (build::<N>(wa), build::<N>(wb));
-        if wa == wb {
-            pair_case::<N>(op, &a, wa, &a, wa)
-        } else {
-            pair_case::<N>(op, &a, wa, &b, wb)
-        }
-    });
+    let pats = Arc::new(vec![wa.to_vec(), wb.to_vec()]);
+    let r = stall::section(
+        || Pending::Operators { n: N, pats, i: 0 },
+        || {
+            stall::detail((8 + op) as u64);
+            catch(|| {
+                let (a, b) = (build::<N>(wa), build::<N>(wb));
+                if wa == wb {
+                    pair_case::<N>(op, &a, wa, &a, wa)
+                } else {
+                    pair_case::<N>(op, &a, wa, &b, wb)
+                }
+            })
+        },
+    );
     match r {
         Ok(Ok(_)) => Ok(()),
         Ok(Err(m)) => Err(m),
@@ -964,37 +1412,37 @@ fn pairs<const N: usize>(pats: &[Vec<u64>]) -> Result<PairReport, (usize, String
         build_checked::<N>(w).map_err(|m| (i, m))?;
     }
     let k = pats.len();
-    let rows: Vec<RowOut> = (0..k)
-        .into_par_iter()
-        .map(|i| {
-            let mut out = RowOut { evals: 0, overlapping: 0, fails: vec![None; 6], results: HashSet::new() };
-            // operands are rebuilt per row: a Bitset need not be Sync (it may hold interior caches)
-            let bs: Vec<Bitset<N>> = pats.iter().map(|w| build::<N>(w)).collect();
-            for j in 0..k {
-                PROGRESS.fetch_add(1, Ordering::Relaxed);
-                let (wa, wb) = (&pats[i], &pats[j]);
-                let and: [u64; N] = expected_op::<N>(0, wa, wb);
-                if and.iter().any(|&x| x != 0) && and[..] != wa[..] && and[..] != wb[..] {
-                    out.overlapping += 1;
+    let shared = Arc::new(pats.to_vec());
+    let row = |i: usize| {
+        let mut out = RowOut { evals: 0, overlapping: 0, fails: vec![None; 6], results: HashSet::new() };
+        // operands are rebuilt per row: a Bitset need not be Sync (it may hold interior caches)
+        let bs: Vec<Bitset<N>> = pats.iter().map(|w| build::<N>(w)).collect();
+        for j in 0..k {
+            PROGRESS.fetch_add(1, Ordering::Relaxed);
+            let (wa, wb) = (&pats[i], &pats[j]);
+            let and: [u64; N] = expected_op::<N>(0, wa, wb);
+            if and.iter().any(|&x| x != 0) && and[..] != wa[..] && and[..] != wb[..] {
+                out.overlapping += 1;
+            }
+            for op in 0..6 {
+                if out.fails[op].is_some() {
+                    continue;
                 }
-                for op in 0..6 {
-                    if out.fails[op].is_some() {
-                        continue;
+                out.evals += 1;
+                stall::detail((8 * j + op) as u64);
+                match catch(|| pair_case::<N>(op, &bs[i], wa, &bs[j], wb)) {
+                    Ok(Ok(w)) => {
+                        let bytes: Vec<u8> = w.iter().flat_map(|x| x.to_le_bytes()).collect();
+                        out.results.insert(fnv(&bytes) ^ (op as u64 % 3));
                     }
-                    out.evals += 1;
-                    match catch(|| pair_case::<N>(op, &bs[i], wa, &bs[j], wb)) {
-                        Ok(Ok(w)) => {
-                            let bytes: Vec<u8> = w.iter().flat_map(|x| x.to_le_bytes()).collect();
-                            out.results.insert(fnv(&bytes) ^ (op as u64 % 3));
-                        }
-                        Ok(Err(m)) => out.fails[op] = Some((j, m)),
-                        Err(p) => out.fails[op] = Some((j, format!("{} of {} and {} panicked: {p}", OPS[op], hex(wa), hex(wb)))),
-                    }
+                    Ok(Err(m)) => out.fails[op] = Some((j, m)),
+                    Err(p) => out.fails[op] = Some((j, format!("{} of {} and {} panicked: {p}", OPS[op], hex(wa), hex(wb)))),
                 }
             }
-            out
-        })
-        .collect();
+        }
+        out
+    };
+    let rows: Vec<RowOut> = (0..k).into_par_iter().map(|i| stall::section(|| Pending::Operators { n: N, pats: shared.clone(), i }, || row(i))).collect();
     let mut rep = PairReport { operands: k, pairs: (k * k) as u64, evals: 0, overlapping: 0, distinct_results: 0, fails: vec![None; 6] };
     let mut results: HashSet<u64> = HashSet::new();
     for (i, row) in rows.into_iter().enumerate() {
@@ -1049,8 +1497,13 @@ struct Totals {
     sweep_transitions: u64,
     pair_evals: u64,
     pairs: u64,
+    eq_pairs: u64,
+    eq_evals: u64,
     all_closed: bool,
 }
+
+/// The warm-up of the pass that is running (what a replay of a call that does not return starts with).
+static PASS_WARM: Mutex<Vec<usize>> = Mutex::new(Vec::new());
 
 /// What one pass (one capacity, one warm-up order) does.
 #[derive(Clone, Copy)]
@@ -1062,6 +1515,10 @@ struct Plan {
     /// depth of the full-alphabet sweep (0 = none)
     sweep_depth: usize,
     pairs: bool,
+    /// at most this many operands of the binary operators
+    pair_cap: usize,
+    /// the equality pairs (directed operands, and the reached patterns where the closure part ran)
+    equality: bool,
     wall_cap: f64,
 }
 
@@ -1195,8 +1652,7 @@ fn closure_part<const N: usize>(cx: &mut Ctx, ev: &mut serde_json::Map<String, V
 }
 
 /// Part 3: the binary operators on all ordered pairs of the first K reached patterns.
-fn pairs_part<const N: usize>(cx: &mut Ctx, ev: &mut serde_json::Map<String, Value>, pats_m: &[Vec<bool>]) {
-    let cap = pair_cap(N);
+fn pairs_part<const N: usize>(cx: &mut Ctx, ev: &mut serde_json::Map<String, Value>, pats_m: &[Vec<bool>], cap: usize) {
     let k = pats_m.len().min(cap);
     let pats: Vec<Vec<u64>> = pats_m[..k].iter().map(|m| model_words(m)).collect();
     let words = |w: &[u64]| w.iter().map(|x| format!("{x:#x}")).collect::<Vec<_>>();
@@ -1269,22 +1725,43 @@ fn run_n<const N: usize>(run: &mut Run, fams: &mut Fams, tot: &mut Totals, plan:
     ev.insert("touch_capacities".into(), json!(neighbours(N)));
     ev.insert("iterator_protocol_marks".into(), json!(protocol_marks(N)));
     let before = protocol_counts();
+    *PASS_WARM.lock().unwrap() = warm.clone();
     let mut cx = Ctx { run, fams, tot, order: plan.order, warm: warm.clone() };
     in_fresh_pool(warm, || {
         // operand patterns: model BFS order (identical to the explorer's order when the closure held)
         let pats_m = if plan.closure == Some(None) || plan.pairs { model_bfs(N, &pos) } else { vec![] };
+        let mut parts = serde_json::Map::new();
+        let mut timed = |name: &str, t: std::time::Instant| parts.insert(name.into(), json!((t.elapsed().as_secs_f64() * 1000.0).round() / 1000.0));
+        let t = std::time::Instant::now();
         if let Some(bound) = plan.closure {
             closure_part::<N>(&mut cx, &mut ev, &plan, bound, &pats_m);
+            timed("closure", t);
         }
+        let t = std::time::Instant::now();
         sweep::<N>(&mut cx, &mut ev, plan.sweep_depth, plan.wall_cap);
+        timed("sweep", t);
+        let t = std::time::Instant::now();
         if plan.pairs {
-            pairs_part::<N>(&mut cx, &mut ev, &pats_m);
+            pairs_part::<N>(&mut cx, &mut ev, &pats_m, plan.pair_cap);
+            timed("binary_operators", t);
         }
+        let t = std::time::Instant::now();
+        if plan.equality {
+            equality_part::<N>(&mut cx, &mut ev, &pats_m);
+            timed("equality_pairs", t);
+        }
+        ev.insert("part_wall_s".into(), Value::Object(parts));
     });
     let proto = protocol_evidence(&before);
     if !run.has_violations() {
         let zero = |k: &str| proto[k] == 0 || proto["cases_per_family"].as_object().is_some_and(|m| m.values().any(|v| *v == 0));
-        if zero("states_judged") || (N >= 2 && zero("nth_from_behind_a_yielded_member_inside_a_word_to_a_later_word_or_the_end")) {
+        // every family consumes a fresh iterator in every state: also from the start of a word that holds
+        // only its top bit, and of one that holds only its bottom bit
+        if zero("states_judged")
+            || (N >= 2 && zero("nth_from_behind_a_yielded_member_inside_a_word_to_a_later_word_or_the_end"))
+            || zero("states_in_which_a_word_holds_only_its_top_bit")
+            || zero("states_in_which_a_word_holds_only_its_bottom_bit")
+        {
             run.machinery_failure(&format!("N={N}: the iterator protocol was not exercised in every family: {proto}"));
         }
     }
@@ -1315,21 +1792,56 @@ fn bad_replay<T>() -> T {
     std::process::exit(2)
 }
 
+/// Words of a replay value, of the capacity's length.
+fn words_of<const N: usize>(v: &Value) -> Vec<u64> {
+    let w = parse_words(v);
+    if w.len() != N {
+        bad_replay::<()>();
+    }
+    w
+}
+
+/// A state rebuilt from new() by set(), observed; then (optionally) one action with its observers; then
+/// what is judged once per state.  The replay of a call that did not return (see `Pending::State`).
+fn confirm_state<const N: usize>(v: &Value) -> Result<(), String> {
+    let words = words_of::<N>(&v["words"]);
+    let then: Option<Act> = serde_json::from_value(v["then"].clone()).unwrap_or_else(|_| bad_replay());
+    let sys = Sys::<N>::replay();
+    let b = build_checked::<N>(&words)?;
+    let m: Vec<bool> = (0..64 * N).map(|i| (words[i / 64] >> (i % 64)) & 1 == 1).collect();
+    let observed = stall::section(|| Pending::State { n: N, words: words.clone(), then: None }, || catch(|| oracle(&b, &m, &sys.probe, true)));
+    let disp = match observed {
+        Ok(r) => r.map_err(|e| tag("state", e))?,
+        Err(p) => return Err(format!("[state.panic] observing the state {} panicked: {p}", hex(&words))),
+    };
+    let mut st = St { b, m, disp };
+    if let Some(a) = &then {
+        match catch(|| sys.step(&mut st, a)) {
+            Ok(r) => r.map(|_| ())?,
+            Err(p) => return Err(format!("[{}.panic] {p}", kind_of(a))),
+        }
+    }
+    sys.invariant(&st)
+}
+
 fn confirm_n<const N: usize>(v: &Value) -> Result<(), String> {
     if v["kind"] == "build" {
-        let wa = parse_words(&v["a"]);
-        if wa.len() != N {
-            bad_replay::<()>();
-        }
-        return build_checked::<N>(&wa).map(|_| ());
+        return build_checked::<N>(&words_of::<N>(&v["a"])).map(|_| ());
     }
     if v["kind"] == "pair" {
         let op = OPS.iter().position(|o| v["op"] == *o).unwrap_or_else(|| bad_replay());
-        let (wa, wb) = (parse_words(&v["a"]), parse_words(&v["b"]));
-        if wa.len() != N || wb.len() != N {
-            bad_replay::<()>();
-        }
-        return pair_plain::<N>(op, &wa, &wb);
+        return pair_plain::<N>(op, &words_of::<N>(&v["a"]), &words_of::<N>(&v["b"]));
+    }
+    if v["kind"] == "eq" {
+        return eq_plain::<N>(&words_of::<N>(&v["a"]), &words_of::<N>(&v["b"]));
+    }
+    if v["kind"] == "touch" {
+        // nothing is judged but that the calls return
+        touch(N);
+        return Ok(());
+    }
+    if v["kind"] == "state" {
+        return confirm_state::<N>(v).map_err(|m| format!("in the state {} (rebuilt from new() by set): {m}", v["words"]));
     }
     let hist: Vec<Value> = v["history"].as_array().cloned().unwrap_or_else(|| bad_replay());
     replay_history(&Sys::<N>::replay(), &hist).map_err(|m| format!("after {}: {m}", serde_json::to_string(&hist).unwrap()))
@@ -1337,7 +1849,9 @@ fn confirm_n<const N: usize>(v: &Value) -> Result<(), String> {
 
 /// One recorded case on a FRESH thread that first performs the recorded warm-up (a replay file without
 /// one — written before the warm-up existed — gets none): what the thread has done before the case is
-/// then the same in the exploration, in `Run::finish` and in a later `--replay` process.
+/// then the same in the exploration, in `Run::finish` and in a later `--replay` process.  The thread is
+/// observed the way the workers of an exploration are (`stall`): a call that does not return within the
+/// same timeout is the violation, and the thread is left behind.
 fn confirm(v: &Value) -> Result<(), String> {
     let n = v["n"].as_u64().unwrap_or_else(|| bad_replay()) as usize;
     let warm: Vec<usize> = match &v["warmup"] {
@@ -1347,31 +1861,86 @@ fn confirm(v: &Value) -> Result<(), String> {
     if !CAPS.contains(&n) || warm.iter().any(|m| !CAPS.contains(m) || *m == n) {
         bad_replay::<()>();
     }
-    let v = v.clone();
-    let handle = std::thread::spawn(move || {
-        warm_up(&warm);
-        for_cap!(n, confirm_n(&v)).map_err(|m| describe(n, &warm, &m))
+    let (v, slot, warm_there) = (v.clone(), stall::Slot::new(true), warm.clone());
+    let (their_slot, (tx, rx)) = (slot.clone(), std::sync::mpsc::channel());
+    std::thread::spawn(move || {
+        stall::install(their_slot);
+        warm_up(&warm_there);
+        let _ = tx.send(for_cap!(n, confirm_n(&v)));
     });
-    handle.join().unwrap_or_else(|_| {
-        eprintln!("replay: the replay thread panicked outside a call into the library");
-        std::process::exit(2)
-    })
+    let mut watch = stall::Watch::default();
+    loop {
+        match rx.recv_timeout(stall::TICK) {
+            Ok(r) => return r.map_err(|m| describe(n, &warm, &m)),
+            Err(std::sync::mpsc::RecvTimeoutError::Timeout) => {
+                if watch.observe(&slot) >= stall::TIMEOUT_TICKS {
+                    if let Some((p, detail)) = slot.pending() {
+                        return Err(describe(n, &warm, &p.stuck(detail).text));
+                    }
+                }
+            }
+            Err(std::sync::mpsc::RecvTimeoutError::Disconnected) => {
+                eprintln!("replay: the replay thread panicked outside a call into the library");
+                std::process::exit(2)
+            }
+        }
+    }
 }
 
-fn watchdog(prop: String) {
+/// A worker of the exploration is stuck in a call (see `stall`): the verdict is given from here, because
+/// the pass that waits for that worker can not end.  Of the calls found stuck, the one reported is the
+/// smallest (capacity, family, case).
+fn report_stuck(prop: &str, tier: Tier, stuck: Vec<Stuck>) -> ! {
+    let warm = PASS_WARM.lock().unwrap_or_else(|e| e.into_inner()).clone();
+    let calls_stuck = stuck.len();
+    let first = stuck.into_iter().min_by(|a, b| (a.n, &a.family, a.case.len(), &a.case).cmp(&(b.n, &b.family, b.case.len(), &b.case))).expect("some call is stuck");
+    let args = Args { prop: prop.to_string(), tier, seed: 0, replay: None, extra: vec![] };
+    let mut run = Run::new(&args, "bitset", "model_checking");
+    let mut replay = first.replay.clone();
+    let warm = match replay.get("warmup") {
+        Some(_) => vec![],
+        None => warm,
+    };
+    replay["warmup"] = json!(warm);
+    run.violation(Violation::new(format!("stuck:{}:N={}:{}", first.family, first.n, first.case), describe(first.n, &warm, &first.text), replay));
+    let (sections, longest) = stall::statistics();
+    run.cov("exhaustive", false);
+    run.cov("states", 0);
+    run.cov("transitions", 0);
+    run.cov("traces_validated_against_impl", 0);
+    run.cov("ended_by", "a call into the library that did not return: the exploration was abandoned where it stood and only that call is reported");
+    run.cov("calls_found_stuck", calls_stuck);
+    run.cov("sections_completed_before", sections);
+    run.cov("longest_completed_section_ms", longest);
+    run.sample(json!({"stuck": first.text}));
+    run.finish(&confirm)
+}
+
+/// The observer of the exploration's threads.  A worker found at the same point of a section `TIMEOUT_TICKS`
+/// times in a row: violation (`report_stuck`, after a few more observations so that workers that got
+/// stuck at about the same time are seen as well).  Last resort, should the process stall outside every
+/// section: no call into the library returned for 120 s: exit 2, no verdict.
+fn watchdog(prop: String, tier: Tier) {
     std::thread::spawn(move || {
-        let (mut last, mut stalled) = (u64::MAX, 0u64);
-        loop {
-            std::thread::sleep(std::time::Duration::from_secs(5));
+        let (mut last, mut stalled_ticks) = (u64::MAX, 0u32);
+        let per_second = (1000 / stall::TICK.as_millis()) as u32;
+        let mut watch = stall::Watch::default();
+        let mut found_at: Option<u32> = None;
+        for tick in 0u32.. {
+            std::thread::sleep(stall::TICK);
+            let stuck = watch.observe_workers(stall::TIMEOUT_TICKS);
+            if !stuck.is_empty() && tick >= *found_at.get_or_insert(tick) + 4 {
+                report_stuck(&prop, tier, stuck.iter().filter_map(|s| s.pending()).map(|(p, d)| p.stuck(d)).collect());
+            }
             let p = PROGRESS.load(Ordering::Relaxed);
-            if p != last {
+            if p != last || WAITING_FOR_THE_DBG_PASS.load(Ordering::Relaxed) {
                 last = p;
-                stalled = 0;
+                stalled_ticks = 0;
             } else {
-                stalled += 5;
-                if stalled >= 120 {
+                stalled_ticks += 1;
+                if stalled_ticks >= 120 * per_second {
                     let msg = format!(
-                        "MACHINERY-FAILURE property={prop} engine=bitset no call into the code under test returned for {stalled} s: a bitset operation (most likely iter_bits().next()) does not terminate; no verdict"
+                        "MACHINERY-FAILURE property={prop} engine=bitset no call into the code under test returned for 120 s and no thread is inside an observed call; no verdict"
                     );
                     println!("{msg}");
                     eprintln!("{msg}");
@@ -1385,41 +1954,48 @@ fn watchdog(prop: String) {
 fn main() {
     let args = Args::parse();
     quiet_panics();
-    watchdog(args.prop.clone());
+    watchdog(args.prop.clone(), args.tier);
     if args.replay.is_some() {
         Run::replay_main(&args, &confirm);
     }
     let mut run = Run::new(&args, "bitset", "model_checking");
+    if !probes_work() {
+        run.machinery_failure("the probes for optional traits (Hash, PartialOrd) do not tell a type that has them from one that has not");
+    }
     let mut fams = Fams { seen: BTreeSet::new() };
     let mut tot = Totals { all_closed: true, ..Default::default() };
     let thorough = args.tier == Tier::Thorough;
     let wall_cap = args.tier.pick(25.0, 500.0);
+    // the same engine in the dbg profile (debug assertions and overflow checks), started by `run_dbg_child`
+    let dbg_pass = std::env::var("VCORE_CHILD").is_ok();
 
     // main pass: every other capacity was used before on the thread, smallest first
-    let main_pass = |closure: bool, sweep_depth: usize| Plan {
+    let main_pass = |n: usize, closure: bool, sweep_depth: usize| Plan {
         order: Order::Ascending,
         thorough,
         closure: if closure { Some(None) } else { None },
         sweep_depth,
         pairs: closure,
+        pair_cap: if dbg_pass { pair_cap(n).min(DBG_PAIR_CAP) } else { pair_cap(n) },
+        equality: true,
         wall_cap,
     };
-    run_cap(1, &mut run, &mut fams, &mut tot, main_pass(true, args.tier.pick(2, 3)));
-    run_cap(2, &mut run, &mut fams, &mut tot, main_pass(true, 2));
-    run_cap(3, &mut run, &mut fams, &mut tot, main_pass(true, args.tier.pick(1, 2)));
+    run_cap(1, &mut run, &mut fams, &mut tot, main_pass(1, true, args.tier.pick(2, 3)));
+    run_cap(2, &mut run, &mut fams, &mut tot, main_pass(2, true, 2));
+    run_cap(3, &mut run, &mut fams, &mut tot, main_pass(3, true, args.tier.pick(1, 2)));
     // N = 10: closure and operator pairs only in the thorough tier; the depth-1 sweep over all 640
     // indices (which includes `!new()`, 640 members) runs in both
-    run_cap(10, &mut run, &mut fams, &mut tot, main_pass(thorough, 1));
+    run_cap(10, &mut run, &mut fams, &mut tot, main_pass(10, thorough, 1));
     // large capacities: closure over the reduced alphabet in both tiers, the sweep over every index only in thorough
     for n in CAPS.into_iter().filter(|&n| is_large(n)) {
-        run_cap(n, &mut run, &mut fams, &mut tot, main_pass(true, args.tier.pick(0, 1)));
+        run_cap(n, &mut run, &mut fams, &mut tot, main_pass(n, true, args.tier.pick(0, 1)));
     }
     // second pass: the other capacities were used largest first (so the last one used is the smallest):
     // the closure again in thorough, its prefix of depth PREFIX in quick
     const PREFIX: usize = 2;
     for n in CAPS {
         let bound = if thorough { None } else { Some(PREFIX) };
-        run_cap(n, &mut run, &mut fams, &mut tot, Plan { order: Order::Descending, thorough, closure: Some(bound), sweep_depth: 0, pairs: false, wall_cap });
+        run_cap(n, &mut run, &mut fams, &mut tot, Plan { order: Order::Descending, thorough, closure: Some(bound), sweep_depth: 0, pairs: false, pair_cap: 0, equality: false, wall_cap });
     }
 
     // one protocol case written out: {0, 63, 64, 191} of Bitset<3>, one item taken, then nth across the words
@@ -1428,9 +2004,17 @@ fn main() {
         b.set(64);
         b.set(191);
         let mut seen = vec![];
-        if catch(|| consume(b.iter_bits(), 1, Use::Nth(1), 194, &mut seen)).is_ok() {
+        if catch(|| consume(|| b.iter_bits(), 1, Use::Nth(1), 194, &[0, 63, 64, 191], &mut seen)).is_ok() {
             run.sample(json!({"N": 3, "set": [0, 63, 64, 191], "after": "1 next() call", "consumed by": Use::Nth(1).text(), "observed": format!("{seen:?}")}));
         }
+    }
+
+    // everything again in a build with debug assertions and integer overflow checks: there a panic on an
+    // in-domain call is a violation as well (signature prefix dbg:)
+    if !dbg_pass {
+        WAITING_FOR_THE_DBG_PASS.store(true, Ordering::Relaxed);
+        run.run_dbg_child();
+        WAITING_FOR_THE_DBG_PASS.store(false, Ordering::Relaxed);
     }
 
     let closed: Vec<usize> = CAPS.into_iter().filter(|&n| thorough || n != 10).collect();
@@ -1450,13 +2034,25 @@ fn main() {
     run.cov("closure_prefix_transitions", tot.prefix_transitions);
     run.cov("bounded_sweep_states", tot.sweep_states);
     run.cov("bounded_sweep_transitions", tot.sweep_transitions);
-    run.cov("iterator_protocol", protocol_evidence(&(0, vec![0; USES.len()], 0)));
+    run.cov("iterator_protocol", protocol_evidence(&ProtocolTotals::default()));
     run.cov("binary_operator_ordered_pairs", tot.pairs);
     run.cov("binary_operator_evaluations", tot.pair_evals);
+    run.cov("equality_ordered_pairs", tot.eq_pairs);
+    run.cov("equality_evaluations", tot.eq_evals);
+    let (sections, longest) = stall::statistics();
+    run.cov(
+        "calls_that_must_return",
+        json!({
+            "observed_sections": sections,
+            "longest_section_ms": longest,
+            "timeout": stall::timeout_text(),
+            "note": format!("every call into the library runs inside a section that is observed every {} ms; a thread found at the same point of the same section (no judged call returned in between) {} times in a row is reported as a violation (family stuck:) with a replay that is observed the same way", stall::TICK.as_millis(), stall::TIMEOUT_TICKS),
+        }),
+    );
     run.cov("exhaustive", tot.all_closed && !run.has_violations());
     run.cov(
         "exhaustive_scope",
-        "the closures over the position alphabet (every capacity of capacities_closure, after the ascending warm-up; in thorough also after the descending one) and the operator pairs over the stated operands; the full-alphabet sweep and the closure prefix after the descending warm-up are complete only to their depth bounds",
+        "the closures over the position alphabet (every capacity of capacities_closure, after the ascending warm-up; in thorough also after the descending one), the operator pairs and the equality pairs over the stated operands; the full-alphabet sweep and the closure prefix after the descending warm-up are complete only to their depth bounds",
     );
     run.cov("initial_words", json!(INIT_WORDS.iter().map(|w| format!("{w:#x}")).collect::<Vec<_>>()));
     run.cov(
@@ -1468,25 +2064,39 @@ fn main() {
          below 64N; for N >= 64 (4096 bits = a 64x64 block, one word more, two blocks and two words): {0,63,64,4095,4096,4097,64N-1} below 64N, in thorough also \
          the positions around the later multiples of 4096. After every transition test(i) for every i < 64N, count, iter_bits (exact list, at most 64N+1 items \
          pulled), == / != against a bitset rebuilt by set() and against one-bit neighbours at every position of P_N and around every multiple of 4096, Display \
-         and Debug (all 64N characters; for N >= 64 Debug once per distinct state reached instead of per transition) are compared with a Vec<bool> model; state identity = model bits + Display rendering (no field dropped). Then & | ^ and \
+         and Debug (all 64N characters; for N >= 64 Debug once per distinct state reached instead of per transition) are compared with a Vec<bool> model; state identity = model bits + Display rendering (no field dropped). \
          Iterator protocol, once per distinct state of every closure, prefix and sweep (the iterator only reads the bitset and a state is its complete \
          contents): with L members, small = {0,1,2,3,L-1,L,L+1} and ranks = small, L-2 and r-1,r,r+1 for the rank r of every mark (marks: P_N, the positions around \
-         every multiple of 4096, for N <= 10 also 64w-1,64w,64w+1 for every word w), an iterator that has yielded j items through next() is consumed by \
-         [nth(t-j), next(), nth(t-j), next()] for all j <= t in ranks (t = L, L+1: exactly and one more than what is left); by_ref().skip(k) (first three items, then next()) \
-         for j in small, k in ranks; step_by(s) (all items) for s in {1,2,3,64,65}, by_ref().take(k) then next() for k in small, last(), count(), fold (number and \
-         order-sensitive digest), and a walk to the first None followed by next(), next(), nth(0), nth(2), count(), last() (all None / 0: after all members any further item \
+         every multiple of 4096, for N <= 10 also 64w-1,64w,64w+1 for every word w), an iterator that has yielded j items through next() is consumed, first, by the \
+         methods that take a closure, for j in small: fold and for_each (number and order-sensitive digest), reduce, max_by_key / min_by_key / max_by / min_by on x % 64, and \
+         for p in {0,63,64,64N-1} [find(x>=p), next(), position(x>=p+64), next(), all, next(); any(x>p), next(); find_map] - the engine's closure ends a method that calls it more \
+         than 4(64N+2) times, which is reported as `does not terminate`; then by [nth(t-j), next(), nth(t-j), next()] for all j <= t in ranks (t = L, L+1: exactly and one more \
+         than what is left); by_ref().skip(k) (first three items, then next()) for j in small, k in ranks; step_by(s) (all items) for s in {1,2,3,64,65}, by_ref().take(k) then \
+         next() for k in small, last(), count(), [sum, max, min], collect into BTreeSet and HashSet / partition / extend of a non-empty Vec, eq / ne / cmp / partial_cmp / le against \
+         the rest of the list, and a walk to the first None followed by next(), next(), nth(0), nth(2), count(), last() (all None / 0: after all members any further item \
          would be a non-member or a repetition), each for j in small; the observations must equal those of the SAME generic code run on the model's ascending Vec<usize>; \
-         size_hint() must satisfy lower <= items left <= upper before every next() of a full walk and after nth(k) for k in ranks. Then & | ^ and \
+         size_hint() must satisfy lower <= items left <= upper before every next() of a full walk and after nth(k) for k in ranks; every pass must have judged states in which \
+         a word holds only its top bit and states in which a word holds only its bottom bit (a fresh iterator is consumed by every family in every state). Then & | ^ and \
          &= |= ^= on all ordered pairs (self-pairs included) of the first min(states, 1500; 128 for N >= 64) patterns in BFS order, operands rebuilt from the \
-         pattern by set(); results and operands read back through test(i) for every i. The full-alphabet sweep (every index 0..64N) is depth-bounded and reported \
+         pattern by set(); results and operands read back through test(i) for every i. Equality: ==, != on values and on references (and, if Bitset implements them, Hash on equal \
+         sets and partial_cmp) on ALL ordered pairs (i = j: two objects built separately) of the equality operands: for every offset o in {0,1,31,62,63} the sets {64w+o : w in W} \
+         for W empty, W = {w} for every word w, and every W of two, three or four marked words (0,1,2,N/2,N-2,N-1,63,64,65 below N), the complements of all these, and every \
+         reached pattern of the closure (all of them; a cap of 20000 is reported if it applies); judged against equality of the patterns; self-check: pairs differing in one bit, \
+         in the same offset of exactly two words for EVERY pair of words, of three and of four words exist. The full-alphabet sweep (every index 0..64N) is depth-bounded and reported \
          separately. Interference between capacities: every pass runs in a thread pool of its own whose threads first use a bitset of every OTHER capacity \
          (ascending in the main pass; descending in a second pass that repeats the closure - in quick its prefix of depth 2); a violation is re-executed on a \
-         fresh thread that performs the recorded warm-up and then the recorded case.",
+         fresh thread that performs the recorded warm-up and then the recorded case. Calls that do not return: every call into the library (constructors, transitions, \
+         observers, per-state judgement, operator and equality rows, operand building, the warm-up) runs inside a section on the thread where its history ran; a monitor looks at \
+         all threads every 250 ms, and a thread found at the same point of the same section (no judged call has returned in between) 40 times in a row is reported as a violation of family stuck: with the state (or operands) and the \
+         call it is in; its replay runs on a fresh thread observed in the same way with the same timeout. The whole tier runs a second time in the dbg profile (debug assertions \
+         and integer overflow checks; there the binary operators use at most 400 operands), where a panic on an in-domain call is a violation (signature prefix dbg:).",
     );
     run.assume("Display of a Bitset together with test(i) for every i < 64N exposes its complete state (the struct has the single field `data`); state identity uses the model bits plus the Display rendering");
     run.assume("histories over positions outside the alphabet of N are covered only to the stated depth of the full-alphabet sweep (quick: no such sweep for N >= 64); capacities other than those listed are not explored");
     run.assume("state shared between capacities is exercised through: the warm-up orders (all other capacities ascending / descending before the first judged call of a thread) and touch(M) inside histories for the neighbouring capacities; what a worker thread did for OTHER states of the same capacity before a judged call is not part of a recorded history");
     run.assume("the iterator protocol is judged once per distinct state (model bits + Display rendering), not after every transition: iter_bits() borrows the bitset immutably, so what it yields can depend on the history only through the state; the adaptors themselves (skip, step_by, take, ...) are std's and are trusted, what is judged are the Iterator methods of the iterator that they call");
-    run.assume("a call into the library that never returns cannot be decided without a clock: a watchdog turns a 120 s stall into exit 2 (machinery), never into a verdict");
+    run.assume("a call into the library that never returns cannot be decided without a clock, except where the engine's own closure is being called (there it is ended after 4(64N+2) calls): a thread observed inside the same call 40 times in a row, 250 ms apart, is taken to be in a call that does not terminate (the longest whole section of this run - up to thousands of judged calls - is reported under calls_that_must_return: the margin is the evidence that a slow machine is not mistaken for a hang; observations are counted, not timed, so a stopped process does not age); the choice among several calls stuck at the same time is the smallest (capacity, family, case), not the first in enumeration order. Only a stall outside every section for 120 s still ends in exit 2 without a verdict");
+    run.assume("Hash and PartialOrd are not implemented by Bitset at the pinned revision; the equality pairs probe for them at compile time and judge them (equal sets hash alike; partial_cmp is Equal exactly for equal sets and antisymmetric) only if they exist — no order between different sets is demanded");
+    run.assume("the dbg-profile pass judges the same plan with a smaller operand cap for the binary operators; it reports through the parent (signature prefix dbg:) and its replays run in the dbg build");
     run.finish(&confirm)
 }
